@@ -354,7 +354,7 @@ def parse_page_metadata(metadata_json: dict) -> dict:
         if not metadata_json[field]:
             continue
         if field in ['Created', 'LastChange']:
-            if metadata_json[field].isdigit():
+            if metadata_json[field].isdecimal():
                 metadata[field] = datetime.fromtimestamp(int(metadata_json[field]) / 1000).isoformat()
             else:
                 try:
@@ -365,7 +365,7 @@ def parse_page_metadata(metadata_json: dict) -> dict:
                     metadata[field] = date_parse(metadata_json[field]).isoformat()
         elif isinstance(metadata_json[field], dict):
             metadata[field] = metadata_json[field]
-        elif hasattr(metadata_json[field], 'isdigit') and metadata_json[field].isdigit():
+        elif hasattr(metadata_json[field], 'isdecimal') and metadata_json[field].isdecimal():
             metadata[field] = int(metadata_json[field])
         else:
             metadata[field] = metadata_json[field]
